@@ -51,6 +51,8 @@ class Engine(ExprMixin, StmtMixin, CallMixin, SpecMixin):
         self.assumption_log: set[str] = set()
         self.loops_explored: dict = {}
         self._cover_seen: set = set()
+        self._cover_sites: dict = {}
+        self._cover_nodes: dict = {}
         self.covered_sites: set[str] = set()
         self.path_log: list = []
 
@@ -142,6 +144,10 @@ class Engine(ExprMixin, StmtMixin, CallMixin, SpecMixin):
                 pass
 
         explore(one)
+        for site, ok in self._cover_sites.items():
+            if not ok:
+                self.pc = []
+                self.oblige("COVER", site, False, self._cover_nodes.get(site), "every path reaching this point has an unsatisfiable path condition: assumed contracts/invariants contradict each other")
         return self
 
     def run_function_top(self):
@@ -214,8 +220,11 @@ class Engine(ExprMixin, StmtMixin, CallMixin, SpecMixin):
         s = z3.Solver()
         s.set("timeout", 1500)
         s.add(*self.pc)
-        if s.check() == z3.unsat:
-            self.oblige("COVER", site, False, node, "path condition unsatisfiable: assumed contracts/invariants contradict each other")
+        sat_or_unknown = s.check() != z3.unsat
+        # an individual infeasible path is normal (the quantifier-free feasibility filter cannot prune it); the guard
+        # fires when *every* path reaching a site has an unsatisfiable path condition
+        self._cover_sites[site] = self._cover_sites.get(site, False) or sat_or_unknown
+        self._cover_nodes[site] = node
 
     def exit_normal(self, value, fr, node):
         c = self.contract
